@@ -91,38 +91,53 @@ Vector Vector::Cross(const Vector& rhs) const
 	}
 }
 
-double Vector::Norm() const
+namespace
 {
-	// Sum the squares of the components scaled by a power of two (exact), so that they neither overflow nor underflow.
+// Euclidean norm of the components scaled by 2^-exponent (exact scaling), so that the squares neither overflow nor underflow
+// and the result keeps its full precision however small or large the components are. The norm itself is
+// std::ldexp(result, exponent). For a vector without non-zero finite largest component the exponent is 0.
+double Scaled_Norm(const std::vector<double>& components, int& exponent)
+{
+	exponent	   = 0;
 	double largest = 0.0;
-	for(unsigned int i = 0; i < dimension; i++)
+	for(unsigned int i = 0; i < components.size(); i++)
 		largest = std::max(largest, std::fabs(components[i]));
 	if(largest == 0.0 || std::isinf(largest))
 		return largest;
-	int exponent;
 	std::frexp(largest, &exponent);
 	double sum = 0.0;
-	for(unsigned int i = 0; i < dimension; i++)
+	for(unsigned int i = 0; i < components.size(); i++)
 	{
 		double component = std::ldexp(components[i], -exponent);
 		sum += component * component;
 	}
-	return std::ldexp(sqrt(sum), exponent);
+	return sqrt(sum);
+}
+}	// namespace
+
+double Vector::Norm() const
+{
+	int exponent;
+	double scaled_norm = Scaled_Norm(components, exponent);
+	return std::ldexp(scaled_norm, exponent);
 }
 
 void Vector::Normalize()
 {
-	double norm = Norm();
+	// Divide in the scaled domain: a subnormal norm has too few significant bits to divide by.
+	int exponent;
+	double scaled_norm = Scaled_Norm(components, exponent);
 	for(unsigned int i = 0; i < dimension; i++)
-		components[i] = components[i] / norm;
+		components[i] = std::ldexp(components[i], -exponent) / scaled_norm;
 }
 
 Vector Vector::Normalized() const
 {
-	double norm = Norm();
+	int exponent;
+	double scaled_norm = Scaled_Norm(components, exponent);
 	std::vector<double> new_components(dimension);
 	for(unsigned int i = 0; i < dimension; i++)
-		new_components[i] = (double) components[i] / norm;
+		new_components[i] = std::ldexp(components[i], -exponent) / scaled_norm;
 	return Vector(new_components);
 }
 
